@@ -249,12 +249,8 @@ def r20_6(ctx):
                 lifo = True
             if re.search(r"\.(pop_front\(\)|remove\(0\))$", x):
                 fifo = True
-            for m in re.finditer(r"children\.iter\(\)(\.rev\(\))?", x):
-                if x.startswith("loop-begin for _ in") or ".extend(" in x or ".collect" in x or ".push(" in x:
-                    feeds += 1
-                    rev = m.group(1) is not None
-                    if lifo_needed(rev, x) is False:
-                        pass
+            if x.startswith("loop-begin for _ in") or ".extend(" in x or ".collect" in x:
+                feeds += len(re.findall(r"children\.iter\(\)", x))
     # decide once the consumption order is known
     for pc in nfq.feasible(pcs):
         for x in nfq.texts(pc):
@@ -269,10 +265,6 @@ def r20_6(ctx):
     if not (lifo or fifo):
         raise AnchorMissing("clone_with_subtree: no work list consumption (pop / pop_front) found")
     ctx.ob("R20.6", "deep-clone-preserves-child-order", bad is None and feeds >= 2, bad or "%d feeding sites, all reversed for a list consumed by pop()" % feeds, "rcdom Node::clone_with_subtree")
-
-
-def lifo_needed(rev, x):
-    return None
 
 
 def run(ctx):
